@@ -158,6 +158,16 @@ TARGETS = [
      {'fragment': ('if_span', "field_processor == 'PAN'", 'return_values', 'field_data'),
       'params': [('field_data', 'str'), ('field_processor', 'str'), ('bit_config', 'cfg'), ('bit', 'int')],
       'lean_name': '_iso8583_to_field_value'}),
+    ('cardutil/iso8583.py', '_string_to_pytype', {'field_data': 'bytes', 'bit_config': 'cfg'}, 'pyval',
+     {'variant': 'bytes', 'lean_name': '_string_to_pytype_bytes'}),
+    # the WHOLE element decoder: framing, text decoding (not for the binary ICC element), the card-number processors, the
+    # typed conversion, and the derived entries (PDS sub-elements, DE43 parts through an external function, ICC tags)
+    ('cardutil/iso8583.py', '_iso8583_to_field', {'return_values': ('dict', 'str', 'pyval')},
+     ('tuple', ('dict', 'str', 'pyval'), 'int'),
+     {'params': [('bit', 'int'), ('bit_config', 'cfg'), ('message_data', 'bytes'), ('encoding', 'decoder')],
+      'extern': {'_get_de43_fields': ([('de43_field', 'str'), ('processor_config', ('opt', 'str'))],
+                                      ('dict', 'str', 'str'), True)},
+      'lean_name': '_iso8583_to_field_whole'}),
     # the PUBLIC entry points dumps / loads: the optional arguments (None or empty = the default encoding / the packaged
     # element table, which is a parameter of the translation) and the call of the worker, an external function
     ('cardutil/iso8583.py', 'dumps', {}, 'bytes',
@@ -411,8 +421,13 @@ class Translator:
             return f'[{code}]'
         if typ == 'asciibytes' and want == 'bytes':
             return code
-        if want == 'pyval' and typ in ('str', 'int', 'dec', 'dt'):
+        if want == 'pyval' and typ in ('str', 'int', 'dec', 'dt', 'bytes'):
             return f'(Rt.PyVal.{typ} {code})'
+        if typ == 'pyval' and want in ('str', 'bytes'):
+            # a decoded value used where a text / a bytes object is needed (slicing, len): TypeError for the other kinds
+            return self.hoist(f'(Rt.pyval{want.capitalize()} {code})', want)[0]
+        if is_dict(typ) and is_dict(want) and typ[1] == want[1] and typ[2] == 'str' and want[2] == 'pyval':
+            return f'(List.map (fun kv => (kv.1, Rt.PyVal.str kv.2)) {code})'
         if want == 'anyval' and typ in ('str', 'int', 'dec', 'dt', 'bytes'):
             return f'(Rt.AnyVal.{typ} {code})'
         if want == 'infoval' and typ in ('str', 'bool'):
@@ -766,7 +781,7 @@ class Translator:
         return v, t
 
     CFG_FIELDS = {'field_type': 'str', 'field_length': 'int', 'field_python_type': 'str', 'field_processor': 'str'}
-    CFG_OPTIONAL = {'field_date_format': 'str'}
+    CFG_OPTIONAL = {'field_date_format': 'str', 'field_processor_config': 'str'}
 
     def cfg_field(self, code, key, default=None):
         if isinstance(key, ast.Constant) and key.value in self.CFG_FIELDS and default is None:
@@ -778,6 +793,8 @@ class Translator:
                 and isinstance(default.value, str):
             d = lean_lit_seq(ord(c) for c in default.value)
             return f'(Option.getD ({code}).{key.value} {d})', self.CFG_OPTIONAL[key.value]
+        if isinstance(key, ast.Constant) and key.value in self.CFG_OPTIONAL and default is None:
+            return f'({code}).{key.value}', ('opt', self.CFG_OPTIONAL[key.value])      # .get(k): None when absent
         raise Untranslatable('configuration entry the translator does not know')
 
     def call(self, node, env):
@@ -817,6 +834,8 @@ class Translator:
                 return f'(Py.decOfInt {c})', 'dec'
             if t == 'anyval':
                 return self.hoist(f'(Rt.anyDecimal Gen.intClasses {c})', 'dec')
+            if t == 'bytes':
+                return self.hoist('(Outcome.escape ExcKind.typeError : Outcome Py.Dec)', 'dec')     # Decimal(b'..'): TypeError
             raise Untranslatable(f'Decimal() of {t}')
         if isinstance(f, ast.Attribute) and f.attr == 'strptime' and isinstance(f.value, ast.Attribute) \
                 and f.value.attr == 'datetime' and len(node.args) == 2 and not node.keywords:
@@ -940,6 +959,8 @@ class Translator:
                     return self.hoist(f'(Rt.anyInt Gen.intClasses {c})', 'int')
                 if t == 'pyval':
                     return self.hoist(f'(Rt.pyvalInt Gen.intClasses {c})', 'int')
+                if t == 'bytes':
+                    return self.hoist(f'(Rt.pyvalInt Gen.intClasses (Rt.PyVal.bytes {c}))', 'int')
                 raise Untranslatable(f'int() of {t}')
             if name == 'int' and len(args) == 2 and self.const_int(args[1]) == 16:
                 c, t = self.expr(args[0], env)
@@ -1047,6 +1068,19 @@ class Translator:
                     and any(a.name == name and a.asname is None for a in n.names) for n in self.mod.body):
                 # `from cardutil.<module> import name`: the function translated from that module
                 self.known = dict(self.known, **{name: ALL_KNOWN[name]})
+            if name in self.known and args:
+                # a variant of the callee translated for a bytes first argument (`Name@bytes`)
+                vkey = name + '@bytes'
+                vfn = self.known.get(vkey) or ALL_KNOWN.get(vkey)
+                if vfn is not None:
+                    saved_p = list(self.pending)
+                    try:
+                        _, t0 = self.expr(args[0], env)
+                    finally:
+                        self.pending = saved_p
+                    if t0 == 'bytes':
+                        self.known = dict(self.known, **{vkey: vfn})
+                        name = vkey
             if name in self.known:
                 fn = self.known[name]
                 if len(args) >= 1 and isinstance(args[-1], ast.Starred) and isinstance(fn.params[-1][1], tuple) \
@@ -1068,6 +1102,10 @@ class Translator:
                 for en, spec in fn.externs:
                     self.extern.setdefault(en, spec)
                     pre.append(f'ext{en}')
+                if getattr(fn, 'uses_fuel', False):
+                    # a callee with a `while` loop: the caller's fuel is handed on
+                    pre = ['fuel'] + pre
+                    self.uses_fuel = True
                 code = f'({fn.name} ' + ' '.join(pre + codes) + ')'
                 if fn.partial:
                     return self.hoist(code, fn.ret)
@@ -1291,7 +1329,7 @@ class Translator:
             def go_upd():
                 ec, et = self.expr(s.value.args[0], env)
                 if et != env[name][1]:
-                    raise Untranslatable('update with a dict of another type')
+                    ec, et = self.coerce(ec, et, env[name][1]), env[name][1]
                 return f'let {name} : {lean_type(et)} := (Rt.dictUpdate {env[name][0]} {ec});\n  ' + self.stmts(rest, env, ret, loop)
             return self.wrap(go_upd)
         if isinstance(s, ast.Expr) and isinstance(s.value, ast.Call) and isinstance(s.value.func, ast.Name) \
@@ -1601,6 +1639,8 @@ class Translator:
             return (f'match {call_code} with\n  | Outcome.ok {name} =>\n    ({body})\n  | Outcome.dataError =>\n    ({handler})\n'
                     f'  | Outcome.escape k => .escape k\n  | Outcome.diverge => .diverge')
         if isinstance(s, ast.Assign) and len(s.targets) == 1 and isinstance(s.targets[0], ast.Name):
+            if getattr(self, 'facts', None) and s.targets[0].id in self.facts:
+                self.facts = {k: v for k, v in self.facts.items() if k != s.targets[0].id}
             name = s.targets[0].id
 
             def go():
@@ -1832,13 +1872,41 @@ class Translator:
                         f'  | none =>\n    ({other})')
             return self.wrap(go_narrow)
         if isinstance(s, ast.If):
+            # what is KNOWN about a name compared with text literals (`if p == 'ICC':` / `if p != 'ICC':`): inside the
+            # branches the outcome of later comparisons of the same name with literals may already be decided — such a
+            # test is not translated, only its live branch is (the name must not be assigned in between)
+            facts = getattr(self, 'facts', {})
+            t = s.test
+            lit = isinstance(t, ast.Compare) and len(t.ops) == 1 and isinstance(t.ops[0], (ast.Eq, ast.NotEq)) \
+                and isinstance(t.left, ast.Name) and isinstance(t.comparators[0], ast.Constant) \
+                and isinstance(t.comparators[0].value, str) and env.get(t.left.id, (None, None))[1] == 'str'
+            if lit:
+                nm, const, is_eq = t.left.id, t.comparators[0].value, isinstance(t.ops[0], ast.Eq)
+                fact = facts.get(nm)
+                decided = None
+                if fact and fact[0] == 'eq':
+                    decided = (fact[1] == const) == is_eq
+                elif fact and fact[0] == 'ne' and const in fact[1]:
+                    decided = not is_eq
+                if decided is not None:
+                    live = s.body if decided else s.orelse
+                    return self.stmts(live + rest if not self.terminates(live) else live, env, ret, loop)
+
             def go():
                 c = self.cond(s.test, env)
                 guard = getattr(self, 'catching', None)       # both branches start under the same `try` (if any)
+                saved_facts = dict(facts)
+                if lit:
+                    ne_set = set(saved_facts.get(nm, ('ne', set()))[1]) if saved_facts.get(nm, ('ne',))[0] == 'ne' else set()
+                    eq_fact, ne_fact = ('eq', const), ('ne', ne_set | {const})
+                    self.facts = dict(saved_facts, **{nm: eq_fact if is_eq else ne_fact})
                 then = self.stmts(s.body if self.terminates(s.body) else s.body + rest, env, ret, loop)
                 self.catching = guard
+                if lit:
+                    self.facts = dict(saved_facts, **{nm: ne_fact if is_eq else eq_fact})
                 other = self.stmts(s.orelse + rest if not self.terminates(s.orelse) else s.orelse, env, ret, loop)
                 self.catching = guard
+                self.facts = saved_facts
                 return f'if {c} then\n    ({then})\n  else\n    ({other})'
             return self.wrap(go)
         if isinstance(s, (ast.While, ast.For)) and not s.orelse:
@@ -2312,6 +2380,7 @@ def translate_function(mod_ast, fdef, ptypes, ret, known, cls=None, opts=None):
         tr.extern = extern
         tr.monadic = monadic
         tr.uses_fuel = False
+        tr.facts = {}
         tr.self_state = state_ast
         tr.self_value = cls is not None and value_type not in (None, 'none')
         tr.signals = signals
